@@ -165,6 +165,19 @@ pub struct World {
 	pub nobody_n: u32,
 }
 
+/// (added for C15) What is needed to reopen a wallet whose handle was dropped.
+#[derive(Clone, Debug)]
+pub struct Detached {
+	pub index: usize,
+	pub name: String,
+	pub password: String,
+	pub masked: bool,
+	pub phrase: String,
+	/// the wallet's top-level directory (contains wallet_data/)
+	pub dir: PathBuf,
+	pub active: Identifier,
+}
+
 fn chain_dir(dir: &Path) -> String {
 	dir.join(".grin").to_string_lossy().to_string()
 }
@@ -289,6 +302,33 @@ impl World {
 		Ok(())
 	}
 
+	/// (added for C15) Drop the handle of wallet `i` (closes its LMDB environment) so that its directory can be
+	/// opened by something else (fault wrapper) or replaced; `attach_wallet` reopens it from disk at the same index.
+	pub fn detach_wallet(&mut self, i: usize) -> Detached {
+		let active = self.wallets[i].active_parent();
+		let old = self.wallets.remove(i);
+		let d = Detached {
+			index: i,
+			name: old.name.clone(),
+			password: old.password.clone(),
+			masked: old.masked,
+			phrase: old.phrase.clone(),
+			dir: old.dir.clone(),
+			active,
+		};
+		drop(old);
+		d
+	}
+
+	/// (added for C15) Reopen a detached wallet from disk (real lifecycle code) and put it back at its index,
+	/// with the account that was active when it was detached.
+	pub fn attach_wallet(&mut self, d: &Detached) -> Result<(), String> {
+		let w = open_wallet(&self.dir, &d.name, self.node.clone(), &d.password, d.masked)?;
+		w.with(|b| b.set_parent_key_id(d.active.clone()));
+		self.wallets.insert(d.index, w);
+		Ok(())
+	}
+
 	pub fn height(&self) -> u64 {
 		self.chain.head().unwrap().height
 	}
@@ -360,6 +400,30 @@ impl World {
 		let b = self.build_block(&prev, txs, rew)?;
 		self.process(b.clone())?;
 		Ok(b)
+	}
+
+	/// Mine one block on `prev` (any known header, not necessarily the head) and feed it to the chain.
+	/// Used to build forks: the chain re-organises by itself once the new branch carries more work.
+	/// `to` = wallet index receiving the reward (its active account), None = nobody.
+	pub fn mine_on(&mut self, prev: &BlockHeader, to: Option<usize>, txs: &[Transaction]) -> Result<Block, String> {
+		let fees: u64 = txs.iter().map(|t| t.fee()).sum();
+		let rew = match to {
+			Some(wi) => {
+				let (o, k, _) = self.coinbase_for(wi, fees, prev.height + 1, None)?;
+				(o, k)
+			}
+			None => self.coinbase_nobody(fees),
+		};
+		let b = self.build_block(prev, txs, rew)?;
+		self.process(b.clone())?;
+		Ok(b)
+	}
+
+	/// Header of the block at `height` on the current best chain.
+	pub fn header_at(&self, height: u64) -> Result<BlockHeader, String> {
+		self.chain
+			.get_header_by_height(height)
+			.map_err(|e| format!("get_header_by_height({}): {:?}", height, e))
 	}
 
 	pub fn mine_n(&mut self, to: Option<usize>, n: usize) -> Result<(), String> {
